@@ -25,7 +25,7 @@ func init() {
 	fw.Register(&fw.Prop{
 		ID: "C17",
 		Rule: "case = timed run of 1-16 connections through one throttle handler (rate 1 KiB/s-10 MiB/s, burst {1,100,rate,64 KiB,default}, per-connection and/or total limiter, latency {0,50,300 ms}, " +
-			"reader buffer {1,512,32 KiB}, duration 0.4-2 s; in one run of five the handler is followed by a subroute whose matcher needs 100-8000 bytes under a 0.2-3 s matching timeout, so that the throttled " +
+			"reader buffer {1,512,32 KiB}, duration 0.4-2 s; one run in six puts the handler on UDP associations (datagrams of 64-4096 bytes, observed at the recording sink); in one run of five the handler is followed by a subroute whose matcher needs 100-8000 bytes under a 0.2-3 s matching timeout, so that the throttled " +
 			"connection is read by prefetch under a read deadline) with unlimited data ready at the client. The scripted client connection stamps the entry of the first underlying read (t0) and the return of " +
 			"every read (tau_i, cumulative bytes C_i). oracle (one-sided, sound under any load): with t0 = span entry + latency (no token can be taken earlier), C_i <= burst + rate*(tau_i - t0) + 1 per connection; for the total limiter the same on the merged " +
 			"stream of all connections; t0 - (span entry) >= latency; bytes the sink read are exactly the prefix of the client's stream that was pulled. non-trivial = >=3 reads observed; " +
@@ -63,6 +63,10 @@ type Run struct {
 	// Matcher > 0: the throttle handler is followed by a subroute whose only route has a matcher that needs this many
 	// bytes, with MatchTimeoutMs as the subroute's matching timeout: the throttled connection is then read by the
 	// matching phase's prefetch, under a read deadline, before (if ever) the sink runs
+	// UDP: the handler runs on UDP associations; every client sends datagrams of Datagram bytes
+	UDP      bool `json:"udp,omitempty"`
+	Datagram int  `json:"datagram,omitempty"`
+
 	Matcher        int `json:"matcher,omitempty"`
 	MatchTimeoutMs int `json:"match_timeout_ms,omitempty"`
 }
@@ -81,6 +85,17 @@ var specials = []*Run{
 	{Rate: 0, TotalRate: 4000, TotalBurst: 300, BufSize: 512, Conns: 3, DurationMs: 1500, Matcher: 6000, MatchTimeoutMs: 500},
 	// ... and can
 	{Rate: 20000, Burst: 500, BufSize: 512, Conns: 2, DurationMs: 1200, Matcher: 3000, MatchTimeoutMs: 3000},
+	// total burst left to its default (rate+1) below an explicit, larger per-connection burst
+	{Rate: 50000, Burst: 4000, TotalRate: 1000, TotalBurst: 0, BufSize: 32 << 10, Conns: 3, DurationMs: 900},
+	{Rate: 0, Burst: 0, TotalRate: 2048, TotalBurst: 0, BufSize: 32 << 10, Conns: 2, DurationMs: 700},
+	// UDP associations, datagrams larger than the burst, reader buffers larger and smaller than a datagram
+	{Rate: 2000, Burst: 200, BufSize: 32 << 10, Conns: 2, DurationMs: 900, UDP: true, Datagram: 1800},
+	{Rate: 0, TotalRate: 4000, TotalBurst: 300, BufSize: 512, Conns: 3, DurationMs: 900, UDP: true, Datagram: 1200},
+}
+
+var udpSeq struct {
+	sync.Mutex
+	n int
 }
 
 func genRun(seed int64, i int) *Run {
@@ -123,6 +138,14 @@ func genRun(seed int64, i int) *Run {
 	if ru.Conns > 1 && r.Intn(3) == 0 {
 		ru.Trickle = 1 + r.Intn(ru.Conns-1)
 	}
+	if r.Intn(6) == 0 {
+		ru.UDP, ru.Trickle = true, 0
+		ru.Datagram = []int{64, 1200, 1800, 4096}[r.Intn(4)]
+		if ru.BufSize == 1 {
+			ru.BufSize = 512
+		}
+		return ru
+	}
 	if r.Intn(5) == 0 {
 		ru.Matcher = []int{100, 3000, 8000}[r.Intn(3)]
 		ru.MatchTimeoutMs = []int{200, 600, 3000}[r.Intn(3)]
@@ -132,7 +155,7 @@ func genRun(seed int64, i int) *Run {
 
 func run(c *fw.Ctx) {
 	hmods.Quiet(c.OutDir + "/caddyhome")
-	n := c.Pick(64, 480)
+	n := c.Pick(72, 480)
 	var mine []*Run
 	for i := 0; i < n; i++ {
 		if c.Mine(i) {
@@ -159,6 +182,10 @@ type sample struct {
 }
 
 func execute(c *fw.Ctx, ru *Run) {
+	if ru.UDP {
+		executeUDP(c, ru)
+		return
+	}
 	th := map[string]any{"handler": "throttle"}
 	if ru.Rate > 0 {
 		th["read_bytes_per_second"] = ru.Rate
